@@ -153,3 +153,18 @@ Theorem C15_tie_TableID : forall ev f,
 Proof. exact binlogEvent_TableID_equiv. Qed.
 Print Assumptions C15_tie_TableID.
 
+(* ---------------------------------------------------------------------------------------------------------------
+   Source pins.  The model functions used above are a hand-written reading of these Go functions (they have closures,
+   channels, interfaces or maps, which the translator gotrans does not accept).  gosync regenerates their normalised
+   text (logging calls and comments removed) into gen/Source.v on every run; it must equal the committed snapshot
+   Spec/SourceSnapshot.v the models were written and validated against.  When one of them is edited the Example
+   naming it fails, the check runs the thorough harness in search of a failing input, and reports the property as no
+   longer shown to hold (with the input, or no-failing-input-found). *)
+From GB Require Proofs.SourcePins Spec.SourceSnapshot.
+From GBGen Require Source.
+Example C15_pin_parseEvents : Source.src_parseEvents = SourceSnapshot.src_parseEvents.
+Proof. exact SourcePins.pin_parseEvents. Qed.
+Example C15_pin_getValuesFromRow : Source.src_getValuesFromRow = SourceSnapshot.src_getValuesFromRow.
+Proof. exact SourcePins.pin_getValuesFromRow. Qed.
+Example C15_pin_getIdentifiesFromRow : Source.src_getIdentifiesFromRow = SourceSnapshot.src_getIdentifiesFromRow.
+Proof. exact SourcePins.pin_getIdentifiesFromRow. Qed.
